@@ -189,6 +189,59 @@ fn explore(api: &Api, setting_ix: usize, seed: u64, cx: &mut Cx) {
             }
         }
     }
+    // value-conditional states: sessions whose genuine finalization STARTS or ENDS with a zero byte (1 in 256 each), found by
+    // running logins on generators 0, 1, 2, ... until one comes up; every single-byte substitution must be refused on them
+    // too (a comparison that strips leading zeros, or treats the tag as a NUL-terminated string, compares less)
+    if setting_ix == 0 {
+        let mut found: [Option<flow::Login>; 2] = [None, None];
+        for i in 0..4096 {
+            if found.iter().all(|f| f.is_some()) {
+                break;
+            }
+            let mut lt = Tape::seeded(seed, &format!("c03/zero-edge/{}", i));
+            if let Ok(l) = flow::login(api, &mut lt, &setup_bytes, Some(&reg_file), &p.pw, &p.cid, o(&p.ctx), o(&p.idu), o(&p.ids), None) {
+                if l.ke3[0] == 0 && found[0].is_none() {
+                    found[0] = Some(l.clone());
+                }
+                if l.ke3[l.ke3.len() - 1] == 0 && found[1].is_none() {
+                    found[1] = Some(l);
+                }
+            }
+        }
+        for (which, f) in ["finalization starts with 00", "finalization ends with 00"].iter().zip(found.iter()) {
+            let l = match f {
+                Some(l) => l,
+                None => {
+                    cx.undetermined += 1;
+                    cx.outcome("zero-edge-session-not-found");
+                    continue;
+                }
+            };
+            for i in 0..l.ke3.len() {
+                for v in 0..=255u8 {
+                    if v == l.ke3[i] {
+                        continue;
+                    }
+                    let mut m = l.ke3.clone();
+                    m[i] = v;
+                    cx.begin_case(json!({"server_state": which, "candidate_class": "bytesub", "candidate": hex::encode(&m)}));
+                    if !cx.state(&(which, &m)) {
+                        continue;
+                    }
+                    cx.edges += 1;
+                    cx.path();
+                    match api.slogin_finish(&Blob::n(&l.slogin), &Blob::n(&m)) {
+                        Err(E::InvalidLogin) => cx.outcome("rejected-InvalidLoginError"),
+                        Err(e) => cx.violate(&format!("wrong-error/zero-edge/{}", which), format!("non-matching finalization rejected with {:?}, the property names InvalidLoginError", e)),
+                        Ok(_) => {
+                            cx.outcome("ACCEPTED-FORGED");
+                            cx.violate("ACCEPTED/zero-edge/bytesub", format!("server login finish returns a session key for a finalization altered at byte {} (session whose genuine {})", i, which));
+                        }
+                    }
+                }
+            }
+        }
+    }
     cx.sample(json!({"suite": api.name(), "states": ["matched", "other-session", "wrong-password-client", "no-record"], "candidates": cands.len(), "genuine": hex::encode(&genuine)}));
     let _ = fw::h128(&0u8);
 }
@@ -207,7 +260,7 @@ pub fn run(tier: Tier, seed: u64) -> i32 {
         tier,
         seed,
         rule: "4 pending server states x the complete candidate menu (genuine; all Nh*8 bit flips; all Nh*255 byte substitutions; all pairs of positions altered by a common XOR mask (01, 80, ff) or by +1/-1; foreign finalizations; constants; confusable values; tape strings; truncations/extensions) x 2 settings x 20 suites; each (state, candidate) is one transition of ServerLogin::finish".into(),
-        bounds: json!({"suites": 20, "settings": 2, "server_states": 4, "state_codecs": ["native", "bincode", "json"], "bit_flips": "all", "byte_substitutions": "all offsets x 255 values", "pair_substitutions": "all position pairs x {xor 01, xor 80, xor ff, +1/-1} (native states)", "quick_equals_thorough": true}),
+        bounds: json!({"suites": 20, "settings": 2, "server_states": 4, "state_codecs": ["native", "bincode", "json"], "bit_flips": "all", "byte_substitutions": "all offsets x 255 values", "zero_edge_sessions": "sessions found on generators 0..4095 whose genuine finalization starts / ends with 00: all byte substitutions", "pair_substitutions": "all position pairs x {xor 01, xor 80, xor ff, +1/-1} (native states)", "quick_equals_thorough": true}),
         assumptions: vec![],
         exhaustive: true,
         crosscheck: json!(null),
